@@ -144,6 +144,10 @@ def check_generate(ctx, cfg, key, boxed):
         ok, det = generate_loop_form(an, owners, N)
     elif ok:
         pipe, cv = fe[0].args[0], fe[0].args[1]
+        # the index paired with slot k is k: `slots.enumerate()` or, equivalently, `(0..N).zip(slots)` (k-th item of 0..N is k)
+        if isinstance(pipe, tuple) and len(pipe) == 5 and pipe[:3] == ("V", "iter", "zip") and isinstance(pipe[3], tuple) and len(pipe[3]) == 3 and pipe[3][0] == "A" \
+                and isinstance(pipe[3][1], tuple) and pipe[3][1][:2] == ("adt", "core::ops::Range") and pipe[3][2][0] == ("I", Poly.const(0)) and pipe[3][2][1] == ("I", N):
+            pipe = ("V", "iter", "enumerate", pipe[4])
         shape = isinstance(pipe, tuple) and len(pipe) == 4 and pipe[:3] == ("V", "iter", "enumerate")
         # destination = the builder's whole array
         blds = [i for i in range(len(an.locals)) if local_adt(an, i) in owners]
